@@ -61,10 +61,11 @@ def sig_whitespace_in_host(u, quoted, strip_fragment):
 def sig_raw_delimiter_inside_component(u, quoted, strip_fragment):
     """a userinfo item holds a raw '@' or ':' ('http://a@b@x.fr', 'http://u:p:w@x.fr') or a query
     value a raw '=' ('?k=a=b'): the unquoted mode leaves it raw, the quoted mode escapes it"""
-    p = U.parse(u, "https")
-    if p is None:
+    try:
+        parts = U.urlsplit(U.clean(u, "https"))
+        user, pw = parts.username, parts.password
+    except ValueError:
         return False
-    parts, user, pw = p[0], p[1], p[2]
     if user is not None and ("@" in user or ":" in user):
         return True
     if pw is not None and ("@" in pw or ":" in pw):
